@@ -200,3 +200,43 @@ def sympify_rule(ctx):
             ctx.ok(c, fn)
         else:
             raise Unknown(c, f"values {vals!r}", fn)
+
+
+# --------------------------------------------------------------------------- which coefficients count as symbolic
+@rule("C12.issymbolic", props=["C12", "C16"], min_instances=7, mutants=[
+    ("rational polynomials no longer count as symbolic", ("multivector", "        symbol_classes = (Expr, RationalPolynomial)", "        symbol_classes = (Expr,)")),
+    ("all() instead of any(): mixed coefficients are numeric", ("multivector", "        return any(isinstance(v, symbol_classes) for v in self.values())", "        return all(isinstance(v, symbol_classes) for v in self.values())")),
+])
+def issymbolic(ctx):
+    """A multivector is symbolic iff at least one coefficient is a sympy expression, a built-in rational
+    polynomial, or an instance of the user's symbol class - any mix of symbolic and numeric coefficients included."""
+    repo = ctx.repo
+    q = "multivector.MultiVector.issymbolic"
+    fn = ctx.func(q)
+    expr = Obj("Expr", {"fmt": "sympy_expr"})
+    ratp = Obj("RationalPolynomial", {"fmt": "ratpoly"})
+    usersym = Obj("UserSymbol", {"fmt": "usersym"})
+    user_cls = ClassRef("UserSymbol")
+    bound_ctor = Obj("bound-method", {"__self__": ClassRef("UserSymbol"), "fmt": "UserSymbol.fromname"})
+    cells = [
+        ("numbers only", [1, 2.5], None, False), ("one sympy expression among numbers", [1, expr, 3], None, True),
+        ("rational polynomial", [ratp], None, True), ("empty", [], None, False),
+        ("user symbol class", [2, usersym], user_cls, True), ("user symbol class given as bound constructor", [usersym], bound_ctor, True),
+        ("user class set, numeric coefficients", [1, 2], user_cls, False),
+    ]
+    for label, vals, symcls, want in cells:
+        c = f"{q}#{label}"
+        alg = rep_algebra(3, extra_attrs={"codegen_symbolcls": symcls})
+        mv = mv_obj(alg, tuple(range(len(vals))), list(vals))
+        it = make_interp(repo)
+        try:
+            got = it._instance_attr(mv, "issymbolic")
+        except NoValue as exc:
+            raise Unknown(c, str(exc), fn)
+        if got is want:
+            ctx.ok(c, fn)
+        elif isinstance(got, Unk):
+            raise Unknown(c, f"evaluates to {got!r}", fn)
+        else:
+            ctx.violation(c, f"issymbolic of coefficients ({label}) is {got!r}, expected {want}: symbolic operands would be "
+                             f"sent down the numeric path (no zero filter, wrapped function) or vice versa", fn)
